@@ -3,6 +3,7 @@ package rules
 import (
 	"fmt"
 	"go/ast"
+	"go/token"
 
 	"arkverif/checker/core"
 )
@@ -21,11 +22,14 @@ func c01r10(c *core.Ctx) {
 		if !ok || fieldKeyOf(m, sel) != "node.neighbors" {
 			return ""
 		}
-		base := ast.Unparen(sel.X)
+		base := ast.Unparen(m.Inline(ast.Unparen(sel.X)))
+		if u, ok := base.(*ast.UnaryExpr); ok && u.Op == token.AND {
+			base = ast.Unparen(u.X)
+		}
 		if ix, ok := base.(*ast.IndexExpr); ok && fieldKeyOf(m, ix.X) == "graph.nodes" {
 			return m.ExprString(ast.Unparen(m.StripConv(ix.Index)))
 		}
-		return m.ExprString(base) + "." + actualFieldName(m, "node.id")
+		return m.BaseString(base) + "." + actualFieldName(m, "node.id")
 	}
 	type link struct {
 		call     *ast.CallExpr
@@ -66,7 +70,14 @@ func c01r10(c *core.Ctx) {
 				if _, seen := lists[blk]; !seen {
 					order = append(order, blk)
 				}
-				lists[blk] = append(lists[blk], link{call, from, m.ExprString(ast.Unparen(m.StripConv(call.Args[1]))), m.ExprString(ast.Unparen(call.Args[0]))})
+				// the id read from g.nodes[E] is E (the node list is indexed by node id, as nodeIDOf assumes too)
+				to := m.ExprString(ast.Unparen(m.StripConv(call.Args[1])))
+				if ts, ok := ast.Unparen(m.Inline(m.StripConv(call.Args[1]))).(*ast.SelectorExpr); ok && fieldKeyOf(m, ts) == "node.id" {
+					if ix, ok := ast.Unparen(ts.X).(*ast.IndexExpr); ok && fieldKeyOf(m, ix.X) == "graph.nodes" {
+						to = m.ExprString(ast.Unparen(m.StripConv(ix.Index)))
+					}
+				}
+				lists[blk] = append(lists[blk], link{call, from, to, m.ExprString(ast.Unparen(call.Args[0]))})
 			}
 			return true
 		})
